@@ -466,6 +466,27 @@ fn oracle_diag(lines: &[String]) -> String {
         if t != " 42 \nREADY.\n" {
             return fail(format!("direct statement with a broken program in memory printed {:?}", t));
         }
+        // every kind of direct statement that stays out of the program still works: loops and branches
+        // inside the direct line (also as its first statement, whose address is the entry address itself)
+        let directs: [(&str, &str); 9] = [
+            ("WHILE J9<3:J9=J9+1:WEND:PRINT J9", " 3 \nREADY.\n"),
+            ("I9=0:WHILE I9<2:I9=I9+1:WEND:PRINT I9", " 2 \nREADY.\n"),
+            ("FOR K9=1 TO 3:NEXT:PRINT K9", " 4 \nREADY.\n"),
+            ("FOR K9=1 TO 2:FOR L9=1 TO 2:NEXT L9,K9:PRINT K9;L9", " 3  3 \nREADY.\n"),
+            ("IF 1 THEN PRINT \"Y\" ELSE PRINT \"N\"", "Y\nREADY.\n"),
+            ("IF 0 THEN PRINT \"Y\" ELSE PRINT \"N\"", "N\nREADY.\n"),
+            ("ON 2 GOSUB 10,20", ""),
+            ("DEF FNQ(X)=X", "?ILLEGAL DIRECT\nREADY.\n"),
+            ("A9$=\"a\":PRINT A9$+\"b\";LEN(A9$)", "ab 1 \nREADY.\n"),
+        ];
+        for (d, want) in directs {
+            r.take();
+            r.line(d);
+            let t = r.take();
+            if !want.is_empty() && t != want {
+                return fail(format!("direct statement {:?} with a broken program in memory printed {:?} instead of {:?}", d, t, want));
+            }
+        }
     }
     "ok".into()
 }
